@@ -15,10 +15,10 @@ theorem C11_roundtrip_partial (c : NContent) (hc : Canonical c) (h : refsResolve
     roundTrip [] c = .ok c.toContent :=
   roundTrip_ok c hc h
 
-/-- **Round trip, hypothesis on the input alone.**  If no key (`__name__` of a derived / reaction function,
-    `init_<name>` of an initial-assignment function, `<rxn>_stoich_<name>` of a coefficient function, the last two
-    moved off the component function names by `_free_name`) is shared by two different function objects, and no
-    component passes the same model name twice, the rebuilt model equals the original. -/
+/-- **Round trip, hypothesis on the input alone.**  If no `__name__` is shared by two different function objects
+    of derived quantities / reactions (`keysInjective`; the names generated for initial assignments and computed
+    coefficients need no condition, `_free_name` keeps them apart from every other key), and no component passes
+    the same model name twice, the rebuilt model equals the original. -/
 theorem C11_roundtrip_input (c : NContent) (hc : Canonical c)
     (hk : keysInjective c = true) (ha : argsNoDup c = true) :
     roundTrip [] c = .ok c.toContent :=
@@ -33,7 +33,8 @@ theorem C11_roundtrip_or_raises (c : NContent) (hc : Canonical c) (h : refsSrcOk
     roundTrip [] c = .ok c.toContent ∨ ∃ m, roundTrip [] c = .error (.valueError m) :=
   roundTrip_or_raises c hc h
 
-/-- … with the hypothesis on the input alone: no key shared by two different function objects -/
+/-- … with the hypothesis on the input alone: no `__name__` shared by two different derived / reaction function
+    objects -/
 theorem C11_roundtrip_or_raises_input (c : NContent) (hc : Canonical c) (hk : keysInjective c = true) :
     roundTrip [] c = .ok c.toContent ∨ ∃ m, roundTrip [] c = .error (.valueError m) :=
   roundTrip_or_raises c hc (refsSrcOk_of_input c hk)
@@ -45,7 +46,24 @@ theorem C11_roundtrip_behaviour_or_raises (c : NContent) (hc : Canonical c) (hk 
   · rw [h1] at h; cases h; rfl
   · rw [h1] at h; cases h
 
+/-- **`_free_name` is fresh**: the name it returns is not in `taken` — for every set and every name; in particular the
+    loop of the executable model never runs out of its fuel `taken.length + 1`. -/
+theorem C11_free_name_fresh (taken : List String) (name : String) : freeName taken name ∉ taken :=
+  freeName_not_mem taken name
+
+/-- **Generated definitions are never confused — every model, no hypothesis.**  Whatever the functions are called,
+    a builder reference whose key is not the `__name__` of a derived quantity's / reaction's function (that is: the
+    reference of an initial assignment or of a computed stoichiometric coefficient) finds the definition generated
+    from its own function object.  (After `fix: a function name generated … is taken from then on`; before it two
+    generated names could coincide.) -/
+theorem C11_generated_definitions_own (c : NContent) (s : SymRepr) (hs : toSymbolicRepr [] c = .ok s) :
+    ∀ call ∈ (genProgram s).build, ∀ r ∈ call.refs, r.key ∉ takenOf s → refOk (genProgram s).defs r = true := by
+  rw [toSymbolicRepr_nil] at hs
+  cases hs
+  exact generated_refs_ok c
+
 example : keysInjective wShared = true ∧ argsNoDup wShared = true
+    ∧ keysInjective wFresh = true ∧ argsNoDup wFresh = true
     ∧ keysInjective wCross = true ∧ argsNoDup wCross = true
     ∧ keysInjective wCollide = false ∧ argsNoDup wDimer = false := by decide +kernel
 
@@ -105,6 +123,16 @@ theorem C11_cross_key_ok : refsResolve wCross = true ∧ freeName ["init_f", "g"
 
 example : roundTrip [] wCross = .ok wCross.toContent :=
   C11_roundtrip_partial wCross wCross_canonical C11_cross_key_ok.1
+
+/-- The class repaired by `fix: a function name generated … is taken from then on`: initial assignments with `a` and
+    `a_` next to a derived function `init_a`, and two different coefficient functions both called `f2` in one
+    reaction — every use gets its own definition, the hypothesis holds, the model is rebuilt exactly. -/
+theorem C11_fresh_keys_ok : refsResolve wFresh = true
+    ∧ defKeys wFresh = ["init_a_", "init_a__", "init_a", "g", "r_stoich_f2", "r_stoich_f2_"] := by
+  decide +kernel
+
+example : roundTrip [] wFresh = .ok wFresh.toContent :=
+  C11_roundtrip_partial wFresh wFresh_canonical C11_fresh_keys_ok.1
 
 /-- **Untranslatable functions.**  If a function used by any component cannot be translated, generation
     raises `ValueError` (no source is emitted). -/
